@@ -340,8 +340,8 @@ Context {T : Type} `{Num T}.
 
 Lemma ss_right_range : forall (a : list T) v, 0 <= ss_right a v <= zlen a.
 Proof.
-  induction a as [|x r IH]; intros v; unfold zlen in *; simpl; [lia|].
-  destruct (nleb x v); specialize (IH v); lia.
+  induction a as [|x r IH]; intros v; unfold zlen in *; cbn [ss_right length]; [lia|].
+  rewrite Nat2Z.inj_succ. destruct (nleb x v); specialize (IH v); lia.
 Qed.
 
 Lemma ss_right_lt : forall (a : list T) v, a <> [] -> nleb (last a nzero) v = false -> ss_right a v < zlen a.
